@@ -723,6 +723,23 @@ def _a_isa(pm, v):
             "same": same}
 
 
+@reg("aero.track")
+def _a_track(pm, v):
+    """one altitude buffer stepped through several table altitudes IN PLACE, the ISA functions evaluated after every step - the
+    way a caller integrating a trajectory uses them; each step must give the atmosphere of the buffer's CURRENT content"""
+    import numpy as np
+    a = pm.aero
+    H = np.zeros(2)
+    steps = []
+    for k in v["ks"]:
+        H[:] = -500.0 + 500.0 * (k - 1)
+        p, rho, T = a.atmos(H)
+        p2 = a.pressure(H)
+        steps.append({"k": k, "p": int(round(float(p[0]) * 100)), "rho": int(round(float(rho[1]) * 1e7)), "T": int(round(float(T[0]) * 1000)),
+                      "same": 1 if float(p2[0]) == float(p[0]) else 0})
+    return {"t": "obs", "steps": steps}
+
+
 @reg("aero.tropopause")
 def _a_tropo(pm, v):
     a = pm.aero
